@@ -10,6 +10,7 @@
   `guardOK` (the scaled maximum is finite) is the explicit guard that excludes exactly finding F18.
 -/
 import OllamaVerif.Proofs.Sampler
+import OllamaVerif.Proofs.SamplerNaN
 
 namespace OllamaVerif.C18
 open OllamaVerif OllamaVerif.Sampler
@@ -122,8 +123,8 @@ theorem topK_isTopK {o : Ops α} (h : OrdLaws o) (k : Int) (ts : List (Tok α)) 
   ⟨topKSpec_isTopK h k ts, topK_isTopK_all h k ts⟩
 
 /-- the number of tokens strictly above a kept token is smaller than the number kept -/
-theorem isTopK_count {o : Ops α} (h : OrdLaws o) {k : Int} {ts out : List (Tok α)} (ht : IsTopK o k ts out)
-    (y : Tok α) (hy : y ∈ out) :
+theorem isTopK_count {o : Ops α} {k : Int} {ts out : List (Tok α)} (ht : IsTopK o k ts out)
+    (y : Tok α) (hy : y ∈ out) (hirr : o.lt y.val y.val = false) :
     (ts.filter (fun x => o.lt y.val x.val)).length < out.length := by
   obtain ⟨rest, hp, hdom⟩ := ht.sub
   have e1 : (ts.filter (fun x => o.lt y.val x.val)).length =
@@ -139,7 +140,7 @@ theorem isTopK_count {o : Ops α} (h : OrdLaws o) {k : Int} {ts out : List (Tok 
   · exact hlt
   · have heq : (out.filter (fun x => o.lt y.val x.val)).length = out.length := by omega
     have := (List.length_filter_eq_length_iff.1 heq) y hy
-    rw [h.irrefl] at this; cases this
+    rw [hirr] at this; cases this
 
 /-- **sample_in_topk** — the top-k clause of the property as a theorem, no run contract: at
     temperature > 0 (both variants, any `r`, any carrier with a strict weak order) the returned id
@@ -157,7 +158,7 @@ theorem sample_in_topk {o : Ops α} (h : OrdLaws o) (fix : Bool) (P : Params α)
   simp only [ht, Bool.false_eq_true, if_false] at hc
   obtain ⟨y, hy, hyid⟩ := afterTopK_id_any o fix P r _ t hc
   have hk := (topK_isTopK h P.topK (mkTokens logits)).2
-  have hcount := isTopK_count h hk y hy
+  have hcount := isTopK_count hk y hy (h.irrefl _)
   have hget := mkTokens_mem logits y (topK_mem o _ _ y hy)
   have hlen : (mkTokens logits).length = logits.length := by
     have := congrArg List.length (mkTokensFrom_vals 0 logits)
@@ -753,7 +754,7 @@ theorem F18c_greedy_retry_returns_rejected :
     as some logit is above `-Inf`, `Sample` RETURNS a token (no error), its logit is not `-Inf`, and
     no logit exceeds it.  (Closes the "whenever some logit is finite" clause on the greedy branch:
     `greedy_argmax` alone says nothing when `Sample` reports an error.) -/
-theorem greedy_admissible {o : Ops α} (laws : Laws o) (fix : Bool) (P : Params α) (r : α)
+theorem greedy_admissible_sep {o : Ops α} (hord : OrdLaws o) (hbeq : BeqLaw o) (fix : Bool) (P : Params α) (r : α)
     (logits : List α) (ht : o.beq P.temp o.zero = true)
     (hsome : ∃ w ∈ logits, o.lt o.negInf w = true) :
     ∃ id v, Sample o fix P r logits = .ok id ∧ logits[id]? = some v ∧ o.beq v o.negInf = false ∧
@@ -765,7 +766,7 @@ theorem greedy_admissible {o : Ops α} (laws : Laws o) (fix : Bool) (P : Params 
     -- greedy on a non-empty list returns a token
     obtain ⟨m, hm⟩ : ∃ m, greedy o (mkTokens (v0 :: vs)) = .ok m := by
       simp only [mkTokens, mkTokensFrom, greedy]; exact ⟨_, rfl⟩
-    obtain ⟨hmem, hmax⟩ := greedy_spec laws.ord _ _ hm
+    obtain ⟨hmem, hmax⟩ := greedy_spec hord _ _ hm
     have hget := mkTokens_mem _ _ hmem
     have hmaxw : ∀ w ∈ v0 :: vs, o.lt m.val w = false := by
       intro w hw
@@ -775,13 +776,20 @@ theorem greedy_admissible {o : Ops α} (laws : Laws o) (fix : Bool) (P : Params 
       cases hb : o.beq m.val o.negInf with
       | false => rfl
       | true =>
-        have h1 : o.lt o.negInf m.val = false := laws.beq _ _ hb
-        rcases laws.ord.cotrans _ m.val _ hlt with h2 | h2
+        have h1 : o.lt o.negInf m.val = false := hbeq _ _ hb
+        rcases hord.cotrans _ m.val _ hlt with h2 | h2
         · rw [h1] at h2; cases h2
         · rw [hmaxw w hw] at h2; cases h2
     refine ⟨m.id, m.val, ?_, hget, hne, hmaxw⟩
     simp only [Sample, sampleCore, ht, if_true, hm, hne, Bool.and_false, Bool.false_eq_true, if_false,
       Except.map]
+
+theorem greedy_admissible {o : Ops α} (laws : Laws o) (fix : Bool) (P : Params α) (r : α)
+    (logits : List α) (ht : o.beq P.temp o.zero = true)
+    (hsome : ∃ w ∈ logits, o.lt o.negInf w = true) :
+    ∃ id v, Sample o fix P r logits = .ok id ∧ logits[id]? = some v ∧ o.beq v o.negInf = false ∧
+      ∀ w ∈ logits, o.lt v w = false :=
+  greedy_admissible_sep laws.ord laws.beq fix P r logits ht hsome
 
 /-- every result of a history on a SEEDED sampler is the result of the single call `Sample` on
     that call's logits with some number -/
@@ -927,4 +935,434 @@ theorem zOps_laws : Laws zOps where
     intro a b hab
     simp only [zOps, decide_eq_true_eq, decide_eq_false_iff_not] at hab ⊢
     omega
+/-! ### round 7 (after review): totality on the weighted branch, all clauses at once -/
+
+theorem pick_not_allNegInf (o : Ops α) (r : α) (L : List (Tok α)) : pick o r L ≠ .error .allNegInf := by
+  unfold pick
+  simp only
+  split
+  · simp
+  · split
+    · simp
+    · split <;> simp
+
+/-- the first token of a correct top-k carries a largest logit (needs only irreflexivity at it) -/
+theorem isTopK_head_max {o : Ops α} {k : Int} {ts : List (Tok α)} {t0 : Tok α} {rest : List (Tok α)}
+    (ht : IsTopK o k ts (t0 :: rest)) (hirr : o.lt t0.val t0.val = false) :
+    ∀ x ∈ ts, o.lt t0.val x.val = false := by
+  obtain ⟨left, hp, hdom⟩ := ht.sub
+  intro x hx
+  have hx' := hp.mem_iff.2 hx
+  rcases List.mem_append.1 hx' with hxo | hxl
+  · rcases List.mem_cons.1 hxo with rfl | hxr
+    · exact hirr
+    · exact (List.pairwise_cons.1 ht.desc).1 x hxr
+  · exact hdom x hxl t0 List.mem_cons_self
+
+/-- core of the totality statement: if the head of `topK`'s output is not `-Inf`, the repaired
+    `Sample` does not report "all logits are -Inf" -/
+theorem no_allNegInf_of_head (o : Ops α) (P : Params α) (r : α) (v : α) (vs : List α)
+    (ht : o.beq P.temp o.zero = false) (t0 : Tok α) (rest : List (Tok α))
+    (hk : topK o P.topK (mkTokens (v :: vs)) = t0 :: rest) (hne : o.beq t0.val o.negInf = false) :
+    Sample o true P r (v :: vs) ≠ .error .allNegInf := by
+  intro hS
+  simp only [Sample, sampleCore, ht, Bool.false_eq_true, if_false] at hS
+  rw [hk] at hS
+  unfold afterTopK at hS
+  simp only [if_true, shiftMax, hne, Bool.false_eq_true, if_false, bind, Except.bind] at hS
+  revert hS
+  generalize (List.map (fun t => ({ id := t.id, val := if o.beq t.val t0.val = true then o.zero else o.sub t.val t0.val } : Tok α)) (t0 :: rest)) = L1
+  intro hS
+  cases hm : minP o P.minP (topP o P.topP (softmax o (temperature o P.temp L1))) with
+  | error e =>
+    rw [hm] at hS
+    simp only [Except.map] at hS
+    cases hL : topP o P.topP (softmax o (temperature o P.temp L1)) with
+    | nil => rw [hL] at hm; simp only [minP] at hm; injection hm with hm; rw [← hm] at hS; cases hS
+    | cons a as => rw [hL] at hm; simp [minP] at hm
+  | ok f =>
+    rw [hm] at hS
+    simp only [Except.map] at hS
+    exact pick_not_allNegInf o r f (by
+      cases hp : pick o r f with
+      | ok t => rw [hp] at hS; cases hS
+      | error e => rw [hp] at hS; injection hS with hS; rw [hS])
+
+theorem topK_ne_nil_of_isTopK {o : Ops α} {k : Int} {ts : List (Tok α)} (hts : ts ≠ [])
+    (ht : IsTopK o k ts (topK o k ts)) (hk0 : topK o k ts = []) : False := by
+  have hlen := ht.len
+  rw [hk0] at hlen
+  have hpos : 0 < ts.length := List.length_pos_iff.2 hts
+  simp only [List.length_nil] at hlen
+  split at hlen
+  · omega
+  · rename_i hc; omega
+
+/-- **the "all logits are -Inf" error is only raised when it is true** (repaired variant = /repo,
+    temperature > 0): as soon as some logit is above `-Inf`, `Sample` does not report it — the head
+    of `topK`'s output is a maximum (`topK_isTopK`, both branches), so it is not `-Inf`. -/
+theorem sample_fixed_no_allNegInf {o : Ops α} (laws : Laws o) (P : Params α) (r : α) (logits : List α)
+    (ht : o.beq P.temp o.zero = false) (hsome : ∃ w ∈ logits, o.lt o.negInf w = true) :
+    Sample o true P r logits ≠ .error .allNegInf := by
+  obtain ⟨w, hw, hlt⟩ := hsome
+  cases logits with
+  | nil => cases hw
+  | cons v vs =>
+    obtain ⟨x, hx, hxv⟩ := mem_mkTokens_of_mem (v :: vs) w hw
+    have hK := (topK_isTopK laws.ord P.topK (mkTokens (v :: vs))).2
+    cases hk : topK o P.topK (mkTokens (v :: vs)) with
+    | nil => exact (topK_ne_nil_of_isTopK (by simp [mkTokens, mkTokensFrom]) hK hk).elim
+    | cons t0 rest =>
+      rw [hk] at hK
+      have hmax := isTopK_head_max hK (laws.ord.irrefl _) x hx
+      refine no_allNegInf_of_head o P r v vs ht t0 rest hk ?_
+      cases hb : o.beq t0.val o.negInf with
+      | false => rfl
+      | true =>
+        have h1 : o.lt o.negInf t0.val = false := laws.beq _ _ hb
+        rcases laws.ord.cotrans _ t0.val _ hlt with h2 | h2
+        · rw [h1] at h2; cases h2
+        · rw [← hxv, hmax] at h2; cases h2
+
+/-- **token or NaN error, nothing else** (repaired variant, temperature > 0, some logit above
+    `-Inf`): with the two arithmetic run contracts of `sample_never_panics_fixed`, `Sample` returns
+    a token or the NaN error — no panic, and not the "all -Inf" error. -/
+theorem sample_fixed_token_or_nan {o : Ops α} (laws : Laws o) (P : Params α) (r : α) (logits : List α)
+    (ht : o.beq P.temp o.zero = false) (hsome : ∃ w ∈ logits, o.lt o.negInf w = true)
+    (hmin : ∀ L1 t0 rest, shiftMax o (topK o P.topK (mkTokens logits)) = .ok L1 →
+        topP o P.topP (probsOf o P L1) = t0 :: rest → o.lt t0.val (o.mul t0.val P.minP) = false)
+    (hr : ∀ L1 f last, shiftMax o (topK o P.topK (mkTokens logits)) = .ok L1 →
+        minP o P.minP (topP o P.topP (probsOf o P L1)) = .ok f →
+        (cumsum o o.zero f).getLast? = some last → o.lt last.val (o.mul r last.val) = false) :
+    (∃ id, Sample o true P r logits = .ok id) ∨ Sample o true P r logits = .error .nanSum := by
+  have hne : logits ≠ [] := by
+    obtain ⟨w, hw, _⟩ := hsome
+    intro e; rw [e] at hw; cases hw
+  rcases sample_never_panics_fixed o P r logits hne hmin hr with h | h | h
+  · exact Or.inl h
+  · exact Or.inr h
+  · exact absurd h (sample_fixed_no_allNegInf laws P r logits ht hsome)
+
+/-- **C18 for one call of the code in /repo, all clauses at once** (repaired variant, temperature > 0):
+    if `Sample` returns `id` then `id` is inside the vocabulary and fewer than `k` logits are strictly
+    larger (no contract), and under the run's IEEE contracts its logit is not `-Inf` and it is the id
+    of a member of `minP (topP (softmax (temperature (shift (topK tokens)))))`. -/
+theorem sample_admissible_all_fixed {o : Ops α} (laws : Laws o) (P : Params α) (r : α)
+    (logits : List α) (id : Nat) (ht : o.beq P.temp o.zero = false)
+    (hS : Sample o true P r logits = .ok id) :
+    id < logits.length ∧
+    (∃ v, logits[id]? = some v ∧
+      ((mkTokens logits).filter (fun x => o.lt v x.val)).length <
+        (if P.topK ≥ (logits.length : Int) ∨ P.topK ≤ 0 then logits.length else P.topK.toNat)) ∧
+    ∃ L1, shiftMax o (topK o P.topK (mkTokens logits)) = .ok L1 ∧
+    (guardOK o (scaledOf o P L1) = true →
+     scaleOK o ((topK o P.topK (mkTokens logits)).map (·.val)) (L1.map (·.val)) = true →
+     scaleOK o (L1.map (·.val)) (scaledOf o P L1) = true →
+     softmaxOK o (scaledOf o P L1) (softmaxVals o (scaledOf o P L1)) = true →
+     (∃ v, logits[id]? = some v ∧ o.beq v o.negInf = false) ∧
+     ∃ f, minP o P.minP (topP o P.topP (probsOf o P L1)) = .ok f ∧ f <+: probsOf o P L1 ∧
+       ∃ x ∈ f, x.id = id) := by
+  refine ⟨index_in_range o true P r logits id hS, sample_in_topk laws.ord true P r logits id ht hS, ?_⟩
+  obtain ⟨L1, hs, hrest⟩ := sample_admissible_fixed_partial laws P r logits id ht hS
+  refine ⟨L1, hs, fun hg hsh hsc hsm => ?_⟩
+  obtain ⟨v, idx, f, x, hv, hne, hf, hpre, hx, hxid⟩ := hrest hg hsh hsc hsm
+  exact ⟨⟨v, hv, hne⟩, f, hf, hpre, x, List.mem_of_getElem? hx, hxid⟩
+
+/-! ### round 7 (after review): the laws relativised to the NaN-free part of the carrier
+
+  No carrier with a NaN satisfies `OrdLaws` (`X_not_OrdLaws` below: `0 < 1` but neither `0 < NaN` nor
+  `NaN < 1`), so the theorems above cannot be instantiated at IEEE floats as they stand.  What IEEE
+  gives is `OrdLawsOn` (the laws on non-NaN values).  The `_on` theorems below take `OrdLawsOn`
+  and the decidable guard `noNaN logits` — the property's quantifier (finite logits, infinities) —
+  and are instantiated on the witness carrier `X`, which HAS a NaN and both infinities
+  (`xLawsOn`).  They are obtained from the total-order theorems through `totalize`
+  (`Proofs/SamplerNaN.lean`): the order-only algorithms compute the same result for `o` and for the
+  total extension of its order on NaN-free inputs. -/
+
+/-- the guard: no logit is NaN (decidable; the driver counts the vectors that violate it,
+    `l2_nan_vectors`, and evaluates only the greedy clause on them: finding F18b) -/
+def noNaN (o : Ops α) (logits : List α) : Bool := logits.all (fun v => !o.isNaN v)
+
+theorem noNaN_mem {o : Ops α} {logits : List α} (hn : noNaN o logits = true) :
+    ∀ w ∈ logits, o.isNaN w = false := by
+  intro w hw
+  have := List.all_eq_true.1 hn w hw
+  simpa using this
+
+theorem goodL_mkTokens {o : Ops α} {logits : List α} (hn : noNaN o logits = true) :
+    GoodL o (mkTokens logits) := by
+  intro t ht
+  have := mkTokens_mem logits t ht
+  exact noNaN_mem hn _ (List.mem_of_getElem? this)
+
+/-- at temperature 0 `Sample` is the same function for `o` and for the total extension of its
+    order, on NaN-free logits -/
+theorem Sample_totalize_greedy (o : Ops α) (fix : Bool) (P : Params α) (r : α) (logits : List α)
+    (ht : o.beq P.temp o.zero = true) (hn : noNaN o logits = true) :
+    Sample (totalize o) fix P r logits = Sample o fix P r logits := by
+  cases logits with
+  | nil => rfl
+  | cons v vs =>
+    have ht' : (totalize o).beq P.temp (totalize o).zero = true := ht
+    simp only [Sample, sampleCore, ht, ht', if_true]
+    rw [greedy_totalize o _ (goodL_mkTokens hn)]
+    rfl
+
+/-- **greedy_argmax for IEEE-like carriers** (relativised laws, NaN-free logits) -/
+theorem greedy_argmax_on {o : Ops α} (h : OrdLawsOn o) (fix : Bool) (P : Params α) (r : α)
+    (logits : List α) (id : Nat) (ht : o.beq P.temp o.zero = true) (hn : noNaN o logits = true)
+    (hS : Sample o fix P r logits = .ok id) :
+    ∃ v, logits[id]? = some v ∧ ∀ w ∈ logits, o.lt v w = false := by
+  rw [← Sample_totalize_greedy o fix P r logits ht hn] at hS
+  obtain ⟨v, hv, hmax⟩ := greedy_argmax (totalize_laws h) fix P r logits id ht hS
+  refine ⟨v, hv, fun w hw => ?_⟩
+  rw [← totalize_lt o (noNaN_mem hn v (List.mem_of_getElem? hv)) (noNaN_mem hn w hw)]
+  exact hmax w hw
+
+/-- **greedy_admissible for IEEE-like carriers**: temperature 0, NaN-free logits, some logit above
+    `-Inf` ⇒ a token is returned, its logit is not `-Inf`, nothing exceeds it -/
+theorem greedy_admissible_on {o : Ops α} (h : OrdLawsOn o) (hb : BeqLawOn o) (fix : Bool) (P : Params α)
+    (r : α) (logits : List α) (ht : o.beq P.temp o.zero = true) (hn : noNaN o logits = true)
+    (hsome : ∃ w ∈ logits, o.lt o.negInf w = true) :
+    ∃ id v, Sample o fix P r logits = .ok id ∧ logits[id]? = some v ∧ o.beq v o.negInf = false ∧
+      ∀ w ∈ logits, o.lt v w = false := by
+  obtain ⟨w, hw, hlt⟩ := hsome
+  have hlt' : (totalize o).lt (totalize o).negInf w = true := by
+    have : (totalize o).lt o.negInf w = o.lt o.negInf w := totalize_lt o h.negInf (noNaN_mem hn w hw)
+    rw [← hlt, ← this]; rfl
+  obtain ⟨id, v, hS, hv, hne, hmax⟩ :=
+    greedy_admissible_sep (totalize_laws h) (totalize_beqLaw hb) fix P r logits ht ⟨w, hw, hlt'⟩
+  rw [Sample_totalize_greedy o fix P r logits ht hn] at hS
+  refine ⟨id, v, hS, hv, hne, fun w' hw' => ?_⟩
+  rw [← totalize_lt o (noNaN_mem hn v (List.mem_of_getElem? hv)) (noNaN_mem hn w' hw')]
+  exact hmax w' hw'
+
+/-- **sample_in_topk for IEEE-like carriers**: temperature > 0, both variants, NaN-free logits:
+    fewer than `k` logits are strictly larger than the returned one -/
+theorem sample_in_topk_on {o : Ops α} (h : OrdLawsOn o) (fix : Bool) (P : Params α) (r : α)
+    (logits : List α) (id : Nat) (ht : o.beq P.temp o.zero = false) (hn : noNaN o logits = true)
+    (hS : Sample o fix P r logits = .ok id) :
+    ∃ v, logits[id]? = some v ∧
+      ((mkTokens logits).filter (fun x => o.lt v x.val)).length <
+        (if P.topK ≥ (logits.length : Int) ∨ P.topK ≤ 0 then logits.length else P.topK.toNat) := by
+  obtain ⟨t, hc, hid⟩ := Sample_ok o fix P r logits id hS
+  unfold sampleCore at hc
+  simp only [ht, Bool.false_eq_true, if_false] at hc
+  obtain ⟨y, hy, hyid⟩ := afterTopK_id_any o fix P r _ t hc
+  have hk := topK_isTopK_on h P.topK (mkTokens logits) (goodL_mkTokens hn)
+  have hym := topK_mem o _ _ y hy
+  have hcount := isTopK_count hk y hy (h.irrefl _ (goodL_mkTokens hn y hym))
+  have hget := mkTokens_mem logits y hym
+  have hlen : (mkTokens logits).length = logits.length := by
+    have := congrArg List.length (mkTokensFrom_vals 0 logits)
+    simpa [mkTokens] using this
+  rw [hk.len, hlen] at hcount
+  exact ⟨y.val, by rw [← hid, ← hyid]; exact hget, hcount⟩
+
+/-- **no spurious "all -Inf" error for IEEE-like carriers** (repaired variant, temperature > 0) -/
+theorem sample_fixed_no_allNegInf_on {o : Ops α} (h : OrdLawsOn o) (hb : BeqLawOn o) (P : Params α)
+    (r : α) (logits : List α) (ht : o.beq P.temp o.zero = false) (hn : noNaN o logits = true)
+    (hsome : ∃ w ∈ logits, o.lt o.negInf w = true) :
+    Sample o true P r logits ≠ .error .allNegInf := by
+  obtain ⟨w, hw, hlt⟩ := hsome
+  cases logits with
+  | nil => cases hw
+  | cons v vs =>
+    obtain ⟨x, hx, hxv⟩ := mem_mkTokens_of_mem (v :: vs) w hw
+    have hg := goodL_mkTokens hn
+    have hK := topK_isTopK_on h P.topK (mkTokens (v :: vs)) hg
+    cases hk : topK o P.topK (mkTokens (v :: vs)) with
+    | nil => exact (topK_ne_nil_of_isTopK (by simp [mkTokens, mkTokensFrom]) hK hk).elim
+    | cons t0 rest =>
+      have ht0 : o.isNaN t0.val = false := hg t0 (topK_mem o _ _ t0 (by rw [hk]; exact List.mem_cons_self))
+      rw [hk] at hK
+      have hmax := isTopK_head_max hK (h.irrefl _ ht0) x hx
+      refine no_allNegInf_of_head o P r v vs ht t0 rest hk ?_
+      cases hbq : o.beq t0.val o.negInf with
+      | false => rfl
+      | true =>
+        have h1 : o.lt o.negInf t0.val = false := hb.nlt _ _ hbq
+        rcases h.cotrans _ t0.val _ h.negInf ht0 (noNaN_mem hn w hw) hlt with h2 | h2
+        · rw [h1] at h2; cases h2
+        · rw [← hxv, hmax] at h2; cases h2
+
+/-- every call of every history on an IEEE-like carrier, seeded or unseeded, NaN-free logits: the id
+    is in range, at temperature 0 it is an arg-max, at temperature > 0 fewer than `k` logits exceed it -/
+theorem every_call_admissible_on {o : Ops α} (h : OrdLawsOn o) (fix : Bool) (P : Params α)
+    (ls : List (List α)) (results : List (Except Err Nat))
+    (hres : ∀ (i : Nat) res, results[i]? = some res → ∃ l r, ls[i]? = some l ∧ res = Sample o fix P r l)
+    (hn : ∀ l ∈ ls, noNaN o l = true)
+    (i : Nat) (id : Nat) (hi : results[i]? = some (.ok id)) :
+    ∃ l, ls[i]? = some l ∧ id < l.length ∧
+      (o.beq P.temp o.zero = true → ∃ v, l[id]? = some v ∧ ∀ w ∈ l, o.lt v w = false) ∧
+      (o.beq P.temp o.zero = false → ∃ v, l[id]? = some v ∧
+        ((mkTokens l).filter (fun x => o.lt v x.val)).length <
+          (if P.topK ≥ (l.length : Int) ∨ P.topK ≤ 0 then l.length else P.topK.toNat)) := by
+  obtain ⟨l, r, hl, hS⟩ := hres i _ hi
+  have hln := hn l (List.mem_of_getElem? hl)
+  exact ⟨l, hl, index_in_range o fix P r l id hS.symm,
+    fun ht => greedy_argmax_on h fix P r l id ht hln hS.symm,
+    fun ht => sample_in_topk_on h fix P r l id ht hln hS.symm⟩
+
+/-- **why the relativisation is needed**: the witness carrier (NaN, ±Inf, integers; IEEE's rules for
+    the special values) does NOT satisfy the total laws -/
+theorem X_not_OrdLaws : ¬ OrdLaws X.ops := by
+  intro h
+  have := h.cotrans (X.fin 0) X.nan (X.fin 1) (by decide)
+  revert this; decide
+
+/-- … and it DOES satisfy the relativised ones: a carrier with a NaN and both infinities on which
+    every `_on` theorem can be instantiated -/
+theorem xLawsOn : OrdLawsOn X.ops where
+  irrefl := by intro a _; cases a <;> simp [X.ops, X.lt]
+  trans := by
+    intro a b c _ _ _
+    cases a <;> cases b <;> cases c <;> simp [X.ops, X.lt] <;> omega
+  cotrans := by
+    intro a b c ha hb hc
+    cases a <;> cases b <;> cases c <;> simp [X.ops, X.lt] at ha hb hc ⊢ <;> omega
+  zero := by decide
+  negInf := by decide
+
+theorem xBeqLawOn : BeqLawOn X.ops where
+  good := by intro a b; cases a <;> cases b <;> simp [X.ops, X.beq]
+  nlt := by
+    intro a b
+    cases a <;> cases b <;> simp [X.ops, X.beq, X.lt] <;> omega
+
+/-- instantiation on the carrier with NaN: the `_on` theorems applied to concrete NaN-free logits
+    (a tie, a `-Inf`, a `+Inf`); and the guard is what fails on the F18b input -/
+example :
+    (∃ v, [X.fin 3, .ninf, .pinf, .fin 3][2]? = some v ∧ ∀ w ∈ [X.fin 3, .ninf, .pinf, .fin 3], X.ops.lt v w = false) ∧
+    noNaN X.ops [.nan, .fin 1, .fin 2] = false :=
+  ⟨greedy_argmax_on xLawsOn true ⟨.fin 0, 40, .fin 1, .fin 0, true⟩ (.fin 0) _ 2 (by decide) (by decide) (by rfl),
+   by decide⟩
+
+example : ∃ id v, Sample X.ops true ⟨.fin 0, 40, .fin 1, .fin 0, true⟩ (.fin 0) [X.ninf, .fin 3, .ninf] = .ok id ∧
+    [X.ninf, .fin 3, .ninf][id]? = some v ∧ X.ops.beq v X.ops.negInf = false ∧
+    ∀ w ∈ [X.ninf, .fin 3, .ninf], X.ops.lt v w = false :=
+  greedy_admissible_on xLawsOn xBeqLawOn true _ (.fin 0) _ (by decide) (by decide) ⟨.fin 3, by decide, by decide⟩
+
+example : Sample X.ops true ⟨.fin 1, 2, .fin 1, .fin 0, false⟩ (.fin 0) [X.fin 3, .ninf, .fin 7, .fin 3]
+    ≠ .error .allNegInf :=
+  sample_fixed_no_allNegInf_on xLawsOn xBeqLawOn _ _ _ (by decide) (by decide) ⟨.fin 7, by decide, by decide⟩
+
+/-! ### round 7 (after review): an independent specification of top-p -/
+
+/-- the mass of the first `j` entries, accumulated the way the code does (left to right from 0) -/
+def prefixSum (o : Ops α) (L : List (Tok α)) (j : Nat) : α :=
+  (L.take j).foldl (fun s t => o.add s t.val) o.zero
+
+theorem topPCut_spec_aux (o : Ops α) (p : α) : ∀ (L : List (Tok α)) (s : α),
+    topPCut o p s L ≤ L.length ∧
+    (∀ j, 0 < j → j < topPCut o p s L →
+        o.lt p ((L.take j).foldl (fun s t => o.add s t.val) s) = false) ∧
+    (topPCut o p s L = L.length ∨ L = [] ∨
+        o.lt p ((L.take (topPCut o p s L)).foldl (fun s t => o.add s t.val) s) = true) ∧
+    (L ≠ [] → 0 < topPCut o p s L) := by
+  intro L
+  induction L with
+  | nil => intro s; simp [topPCut]
+  | cons t rest ih =>
+    intro s
+    simp only [topPCut]
+    cases hlt : o.lt p (o.add s t.val) with
+    | true =>
+      simp only [if_true]
+      refine ⟨by simp, ?_, ?_, fun _ => by omega⟩
+      · intro j hj0 hj1; omega
+      · right; right; simp [hlt]
+    | false =>
+      simp only [Bool.false_eq_true, if_false]
+      obtain ⟨h1, h2, h3, h4⟩ := ih (o.add s t.val)
+      refine ⟨by simp; omega, ?_, ?_, fun _ => by omega⟩
+      · intro j hj0 hj1
+        cases j with
+        | zero => omega
+        | succ j =>
+          simp only [List.take_succ_cons, List.foldl_cons]
+          rcases Nat.eq_zero_or_pos j with h0 | h0
+          · subst h0; simpa using hlt
+          · exact h2 j h0 (by omega)
+      · rcases h3 with h3 | h3 | h3
+        · left; simp; omega
+        · subst h3; left; simp [topPCut]
+        · right; right
+          have : 1 + topPCut o p (o.add s t.val) rest = topPCut o p (o.add s t.val) rest + 1 := by omega
+          rw [this]
+          simpa using h3
+
+/-- **top-p keeps the SMALLEST non-empty prefix whose accumulated mass exceeds `p`** (the whole list
+    if none does, or if `p == 1`): independent of the implementation — stated with `prefixSum`, the
+    left-to-right sums from 0.  With `n` the number of kept entries:
+      * `1 ≤ n ≤ len` (at least one token);
+      * no shorter non-empty prefix already exceeds `p`:  `∀ 0 < j < n, ¬ p < prefixSum j`;
+      * the kept prefix does, unless everything is kept:  `n = len ∨ p < prefixSum n`.
+    An off-by-one cut (one token more or fewer, `>=` for `>`) violates the second or third line
+    (`topPBad_violates_spec` below). -/
+theorem topP_spec (o : Ops α) (p : α) (L : List (Tok α)) (hL : L ≠ []) (hp : o.beq p o.one = false) :
+    topP o p L = L.take (topP o p L).length ∧
+    1 ≤ (topP o p L).length ∧ (topP o p L).length ≤ L.length ∧
+    (∀ j, 0 < j → j < (topP o p L).length → o.lt p (prefixSum o L j) = false) ∧
+    ((topP o p L).length = L.length ∨ o.lt p (prefixSum o L (topP o p L).length) = true) := by
+  obtain ⟨h1, h2, h3, h4⟩ := topPCut_spec_aux o p L o.zero
+  have hlen : (topP o p L).length = topPCut o p o.zero L := by
+    simp only [topP, hp, Bool.false_eq_true, if_false, List.length_take]
+    omega
+  rw [hlen]
+  refine ⟨by simp [topP, hp], h4 hL, h1, h2, ?_⟩
+  rcases h3 with h3 | h3 | h3
+  · exact Or.inl h3
+  · exact absurd h3 hL
+  · exact Or.inr h3
+
+/-- with `p == 1` top-p is switched off -/
+theorem topP_one (o : Ops α) (p : α) (L : List (Tok α)) (hp : o.beq p o.one = true) : topP o p L = L := by
+  simp [topP, hp]
+
+/-- the reviewer's broken variant (keeps one token too many at the cut) … -/
+def topPCutBad (o : Ops α) (p : α) : α → List (Tok α) → Nat
+  | _, [] => 0
+  | sum, t :: rest =>
+    let s := o.add sum t.val
+    if o.lt p s then 2 else 1 + topPCutBad o p s rest
+
+/-- … is a non-empty prefix too, but VIOLATES `topP_spec` (on the integers: p = 500, masses
+    600/300/100: a shorter prefix already exceeds p), while the model's `topP` keeps exactly `[0]` -/
+theorem topPBad_violates_spec :
+    let L : List (Tok Int) := [⟨0, 600⟩, ⟨1, 300⟩, ⟨2, 100⟩]
+    (topP zOps 500 L).map (·.id) = [0] ∧
+    (L.take (topPCutBad zOps 500 0 L)).map (·.id) = [0, 1] ∧
+    ¬ (∀ j, 0 < j → j < (L.take (topPCutBad zOps 500 0 L)).length → zOps.lt 500 (prefixSum zOps L j) = false) := by
+  refine ⟨by decide, by decide, ?_⟩
+  intro h
+  have := h 1 (by decide) (by decide)
+  revert this; decide
+
+/-! ### round 7 (after review): reproducibility under a seed, stated on the history -/
+
+/-- **reproducible under a fixed seed** (the headline statement of the clause).  Two samplers built
+    with the same seed and the same parameters, given the same sequence of logit vectors, return the
+    same sequence of results; and that sequence is determined call by call: the i-th result is
+    `Sample` on the i-th logits with the `d_i`-th number of the seed's PCG stream, where `d_i` is
+    the number of earlier calls that reached the generator — nothing else of the past matters, and
+    the stream itself does not depend on how many numbers are drawn later (`stream_of_seed`).
+    (The first conjunct alone would hold for any function; the content is the second, `hist_nth`,
+    together with the bit-exact PCG mirror tied by L1 `rng`.) -/
+theorem reproducible_under_seed (o : Ops α) (toF : Nat → α) (fix : Bool) (P : Params α) (seed : Int)
+    (ls : List (List α)) :
+    (∀ seed', seed' = seed →
+      sampleHist o toF fix P (pcgOfSeed seed') ls = sampleHist o toF fix P (pcgOfSeed seed) ls) ∧
+    (sampleHist o toF fix P (pcgOfSeed seed) ls).length = ls.length ∧
+    ∀ i l, ls[i]? = some l →
+      (sampleHist o toF fix P (pcgOfSeed seed) ls)[i]? =
+        some (if consumes o fix P l then
+                Sample o fix P (toF (pcgFloat24 (advance pcgFloat24 (draws o fix P (ls.take i)) (pcgOfSeed seed))).1) l
+              else Sample o fix P (toF 0) l) := by
+  refine ⟨fun s' hs => by rw [hs], sampleHist_length o toF fix P _ ls, ?_⟩
+  intro i l hl
+  rw [hist_nth, hl]
+  simp only [Option.map_some, sampleStep]
+  split <;> rfl
+
 end OllamaVerif.C18
